@@ -59,4 +59,9 @@ theorem deduct_call_sequence :
     deductCalls = ["CalculateBaseFee", "dfd.msgFeeKeeper.CalculateAdditionalFeesToBePaid",
       "GetFeePayerUsingFeeGrant", "DeductFees", "feeGasMeter.ConsumeBaseFee"] := by decide
 
+/-- No function of the ante / router packages reads the mempool RECHECK flag: on a recheck the
+whole mempool check — the fee sufficiency test of `MsgFeesDecorator` included — runs again,
+against the parameters and schedule then in force (`PvModel.Txfee.recheckTx` is `checkTx`). -/
+theorem fee_code_ignores_recheck_mode : recheckReaders = [] := by decide
+
 end PvProofs.C08Facts
